@@ -135,7 +135,13 @@ def strategy(tier):
             {'type': 0, 'nsp': 7}, {'type': 0, 'nsp': b'/x'},
             {'type': 0, 'nsp': ['/']}, {'type': 0, 'nsp': 1.5},
             {'type': 2, 'nsp': 7, 'data': ['b', '§B0§']},
-            {'type': 0, 'nsp': True}, {'type': 0, 'nsp': {'/': 1}}])}),
+            {'type': 0, 'nsp': True}, {'type': 0, 'nsp': {'/': 1}},
+            {'type': 2.0, 'nsp': '/', 'data': ['a', 1]},
+            {'type': 2.0, 'nsp': [], 'data': ['a', 1]},
+            {'type': True, 'nsp': '/'}, {'type': True, 'nsp': 0},
+            {'type': 3.0, 'nsp': False, 'id': 1, 'data': ['x']},
+            {'type': False, 'nsp': '/x'},
+            {'type': 2, 'nsp': False, 'data': ['a', 2]}])}),
         st.fixed_dictionaries({'k': st.just('by'), 'b': st.integers(0, 2),
                                'id': st.one_of(st.none(),
                                                st.integers(0, 3))}))
@@ -384,6 +390,15 @@ def _run(case, w):
             try:
                 p = sio.packet_class(encoded_packet=body)
                 decodable = True
+                if ser == 'msgpack' and (
+                        type(p.packet_type) is not int or
+                        not isinstance(p.namespace, (str, type(None)))):
+                    # msgpack carries every field with a type of its own:
+                    # a packet type that is not an integer (2.0, true), a
+                    # namespace that is not a string or nil ([], false, 7) make no
+                    # packet (the reference parser checks both)
+                    decodable = False
+                    labels['msgpack_field_of_wrong_type'] = True
                 if ser == 'msgpack' and p.packet_type in (5, 6):
                     # msgpack carries bytes inline: these types do not exist
                     decodable = False
